@@ -53,7 +53,7 @@ func isRepoPath(p string) bool {
 // LoadProgram loads dir with full syntax and builds SSA. overlay may be nil.
 func LoadProgram(dir string, patterns []string, overlay map[string][]byte, tags string) (*Program, error) {
 	cfg := &packages.Config{
-		Mode:    packages.LoadAllSyntax,
+		Mode:    loadMode(),
 		Dir:     dir,
 		Env:     loaderEnv(),
 		Tests:   false,
@@ -91,12 +91,28 @@ func LoadProgram(dir string, patterns []string, overlay map[string][]byte, tags 
 		return nil, fmt.Errorf("type errors in analysed packages:\n  %s", strings.Join(errs, "\n  "))
 	}
 	sort.Slice(p.RepoPkgs, func(i, j int) bool { return p.RepoPkgs[i].PkgPath < p.RepoPkgs[j].PkgPath })
-	prog, pkgs := ssautil.AllPackages(roots, ssa.InstantiateGenerics)
-	_ = pkgs
+	var prog *ssa.Program
+	if loadMode()&packages.NeedDeps != 0 {
+		prog, _ = ssautil.AllPackages(roots, ssa.InstantiateGenerics)
+	} else {
+		// SSA bodies for the repository's own packages only; dependencies are
+		// type-checked from export data and appear as body-less functions.
+		prog, _ = ssautil.Packages(roots, ssa.InstantiateGenerics)
+	}
 	prog.Build()
 	p.Prog = prog
 	for _, sp := range prog.AllPackages() {
 		p.SSAPkgs[sp.Pkg.Path()] = sp
 	}
 	return p, nil
+}
+
+// loadMode: by default only the repository's packages are parsed (dependencies
+// come from compiler export data); CJVERIF_WHOLE=1 loads the whole program
+// from source (needed only for whole-program call graphs).
+func loadMode() packages.LoadMode {
+	if os.Getenv("CJVERIF_WHOLE") != "" {
+		return packages.LoadAllSyntax
+	}
+	return packages.LoadSyntax
 }
